@@ -209,6 +209,114 @@ def methods_source(t, uid):
   return "\n".join(L) + "\n"
 
 
+def gen_greenlet(c):
+  """blocks that call a BLOCKING (FL) method and are therefore wrapped in greenlets: explicit U<U constraints
+  consistent with a hidden order, writer/reader pairs on wires, some plain blocks in between"""
+  n = c.randint(3, 10)
+  order = list(range(n))
+  c.shuffle(order)
+  pos = {b: i for i, b in enumerate(order)}
+  fl = [c.random() < 0.75 for _ in range(n)]        # does block i call the blocking method?
+  if sum(fl) < 2:
+    fl[0] = fl[1] = True
+  uu = set()
+  for _ in range(c.randint(1, n)):
+    a, b = c.sample(range(n), 2)
+    if pos[a] > pos[b]:
+      a, b = b, a
+    uu.add((a, b))
+  pairs = []          # (writer, reader): reader reads the wire the writer writes
+  for _ in range(c.randint(1, n // 2 + 1)):
+    a, b = c.sample(range(n), 2)
+    if pos[a] > pos[b]:
+      a, b = b, a
+    if not any(w == a for w, r in pairs):          # one wire per writer
+      pairs.append((a, b))
+  src_order = list(range(n))
+  c.shuffle(src_order)
+  return {"n": n, "fl": fl, "uu": sorted(uu), "pairs": pairs, "src_order": src_order, "in_sub": c.random() < 0.5}
+
+
+def greenlet_source(t, uid):
+  # the trace / observed values live in module globals: attribute accesses through `s` inside update blocks
+  # are analysed by pymtl3 as hardware reads / writes
+  L = ["from pymtl3 import *", "", "TRACE_%s = []" % uid, "SEEN_%s = {}" % uid, "",
+       "class Rec_%s(Component):" % uid, "  @blocking", "  def log(s, tag):",
+       "    TRACE_%s.append(tag)" % uid, "    return len(TRACE_%s)" % uid, "  def construct(s):", "    pass", ""]
+  wr_of = {w: k for k, (w, r) in enumerate(t["pairs"])}
+  rd_of = {}
+  for k, (w, r) in enumerate(t["pairs"]):
+    rd_of.setdefault(r, []).append(k)
+  L += ["class Top_%s(Component):" % uid, "  def construct(s):", "    s.rec = Rec_%s()" % uid]
+  for k in range(len(t["pairs"])):
+    L.append("    s.x%d = Wire(Bits32)" % k)
+  for i in range(t["n"]):
+    if t["fl"][i]:
+      L.append("    s.c%d = CallerIfcFL()" % i)
+      L.append("    s.c%d //= s.rec.log" % i)
+  for i in t["src_order"]:
+    L += ["    @update_once", "    def b%d():" % i]
+    if t["fl"][i]:
+      L.append("      s.c%d(%d)" % (i, i))
+    else:
+      L.append("      TRACE_%s.append(%d)" % (uid, i))
+    for k in rd_of.get(i, []):
+      L.append("      SEEN_%s[%d] = int(s.x%d)" % (uid, k, k))
+    if i in wr_of:
+      L.append("      s.x%d @= s.x%d + %d" % (wr_of[i], wr_of[i], wr_of[i] + 1))
+  if t["uu"]:
+    L.append("    s.add_constraints(%s)" % ", ".join("U(b%d) < U(b%d)" % (a, b) for a, b in t["uu"]))
+  return "\n".join(L) + "\n"
+
+
+def run_greenlet(case, stats):
+  from ..sched import harness
+  t = case["tmpl"]
+  for sched, sseed in case["scheds"]:
+    seams.set_hash_stream(case["hash_seed"] ^ sseed)
+    try:
+      ns, cls, _ = emit.build({"uid": case["uid"], "top": "Top"}, src=greenlet_source(t, case["uid"]))
+      top = cls()
+      top.elaborate()
+      harness.prepare(top, sched, sseed)
+      top.sim_reset()
+    except Exception as e:
+      return [C.exc_violation(e, "build/%s" % sched)]
+    stats["fault_counts"]["sched." + sched] = stats["fault_counts"].get("sched." + sched, 0) + 1
+    vals = {k: int(getattr(top, "x%d" % k)) for k in range(len(t["pairs"]))}
+    trace, seen = ns["TRACE_" + case["uid"]], ns["SEEN_" + case["uid"]]
+    for cyc in range(3):
+      del trace[:]
+      seen.clear()
+      try:
+        top.sim_tick()
+      except Exception as e:
+        return [C.exc_violation(e, "sim/%s" % sched)]
+      tr = list(trace)
+      stats["schedules"].append(_rng.digest(tr))
+      for i in range(t["n"]):
+        if tr.count(i) != 1:
+          return [C.viol("exactly_once", {"sched": sched, "block": "b%d" % i, "count": tr.count(i), "kind": "greenlet",
+                                          "trace": tr})]
+      pos = {b: i for i, b in enumerate(tr)}
+      for a, b in t["uu"]:
+        stats["pairs_checked"] += 1
+        if pos[a] > pos[b]:
+          return [C.viol("explicit_order", {"sched": sched, "sched_seed": sseed, "before": "b%d" % a, "after": "b%d" % b,
+                                            "kind": "greenlet", "trace": tr})]
+      for k, (w, r) in enumerate(t["pairs"]):
+        stats["pairs_checked"] += 1
+        vals[k] = (vals[k] + k + 1) & 0xffffffff
+        if pos[w] > pos[r]:
+          return [C.viol("writer_before_reader", {"sched": sched, "sched_seed": sseed, "writer": "b%d" % w,
+                                                  "reader": "b%d" % r, "kind": "greenlet", "trace": tr})]
+        stats["value_samples"] += 1
+        if seen.get(k) != vals[k]:
+          return [C.viol("value_at_call", {"sched": sched, "sched_seed": sseed, "wire": "x%d" % k, "kind": "greenlet",
+                                           "got": seen.get(k), "want": vals[k]})]
+  return []
+
+
 def run_methods(case, stats):
   from ..sched import harness
   t = case["tmpl"]
@@ -259,7 +367,12 @@ def gen_case(R, tier):
   s = R("sched")
   r = c.random()
   base = {"hash_seed": R.sub_seed("hash")}
-  if r < 0.10:
+  if r < 0.05:
+    base.update(kind="greenlet", tmpl=gen_greenlet(c), uid="g%x" % (R.seed & 0xffffff),
+                scheds=[[x, s.getrandbits(32)] for x in s.sample(
+                  ("default", "default_s2", "mamba", "mamba_s2", "simple", "simple_s2", "unroll"), 3)])
+    return base
+  if r < 0.12:
     base.update(kind="methods", tmpl=gen_methods(c), uid="m%x" % (R.seed & 0xffffff),
                 scheds=[[x, s.getrandbits(32)] for x in s.sample(
                   ("default", "default_s2", "mamba", "mamba_s2", "simple", "simple_s2", "heutopo", "forced",
@@ -534,6 +647,8 @@ def run_case(case):
     v = run_explicit(case, stats)
   elif kind == "methods":
     v = run_methods(case, stats)
+  elif kind == "greenlet":
+    v = run_greenlet(case, stats)
   else:
     v = run_novar(case, stats)
   stats["fault_counts"]["kind." + kind] = 1
@@ -550,6 +665,8 @@ def sample(case):
     return {"kind": "dataflow", "scheds": case["scheds"], "source_head": emit.source(case["spec"])[:1200]}
   if case["kind"] == "methods":
     return {"kind": "methods", "scheds": case["scheds"], "source": methods_source(case["tmpl"], case["uid"])}
+  if case["kind"] == "greenlet":
+    return {"kind": "greenlet", "scheds": case["scheds"], "source": greenlet_source(case["tmpl"], case["uid"])}
   return {"kind": case["kind"], "scheds": case["scheds"],
           "source": tmpl_source(case["kind"], case["tmpl"], case["uid"])}
 
@@ -562,6 +679,12 @@ def shrink(case):
       for s in case["scheds"]:
         yield dict(case, scheds=[s])
     t = case["tmpl"]
+    if case["kind"] == "greenlet":
+      for i in range(len(t["uu"])):
+        yield dict(case, tmpl=dict(t, uu=t["uu"][:i] + t["uu"][i + 1:]))
+      for i in range(len(t["pairs"])):
+        yield dict(case, tmpl=dict(t, pairs=t["pairs"][:i] + t["pairs"][i + 1:]))
+      return
     for i in range(len(t["constraints"])):
       if case["kind"] == "novar":
         t2 = dict(t, constraints=t["constraints"][:i] + t["constraints"][i + 1:])
